@@ -42,7 +42,7 @@ def fmt_float(rng, v, safe=False):
     elif c == 3:
         s = "%.6f" % v
     elif c == 4:
-        s = ("+" if v >= 0 else "") + repr(float(v))
+        s = ("+" if math.copysign(1.0, v) > 0 else "") + repr(float(v))
     elif c == 5:
         iv = int(rng.integers(-5000, 5000))
         s = "%d" % iv
